@@ -242,6 +242,15 @@ def run_task(task):
     seen = set()
     worst = 0.0
     devkey = sorted(task["dev"].items())
+    # every node's solver is constructed BEFORE any of them is evaluated, so the same problem in other units is evaluated with
+    # other instances of the class alive and constructed after it (added after the seeded change S-C08-3, where _run read a
+    # class-level dictionary that every constructor overwrites)
+    prebuilt = {}
+    for key, rec in nodes.items():
+        try:
+            prebuilt[key] = D.build(f, D.scaled_kwargs(f, cfg, node_scale(f, rec["node"], lam)))
+        except Exception as ex:
+            prebuilt[key] = ex
     for key, rec in nodes.items():
         node = rec["node"]
         scale = node_scale(f, node, lam)
@@ -251,7 +260,9 @@ def run_task(task):
         word = ".".join(rec["word"]) or "identity"
         sig = sig_of(node)
         try:
-            s = D.build(f, kw)
+            s = prebuilt[key]
+            if isinstance(s, Exception):
+                raise s
             out = call(s, pts_n, t_n)
         except Exception as ex:
             # the root is admissible and evaluates: the same problem in other units must too
